@@ -1,8 +1,9 @@
 //! vhelper — child-process side of the suites `addr` (C16) and `proxy` (C18).
 //!
-//!   vhelper serve <specfile> <address> [--idle SECS] [--dump FILE]
+//!   vhelper serve <specfile> <address> [--idle SECS] [--dump FILE] [--banner]
 //!       serve the world of <specfile> with varlink::listen (honours socket activation);
-//!       --dump writes pid, activation variables and descriptor table before listening
+//!       --dump writes pid, activation variables and descriptor table before listening;
+//!       --banner prints a line on stdout first (a service's stdout is not part of any varlink stream)
 //!   vhelper stdio <specfile> [--dump FILE]
 //!       serve one connection on stdin/stdout (the far end of Connection::with_bridge)
 //!   vhelper listener <address> <outfile>
@@ -75,6 +76,11 @@ fn main() {
                 std::fs::write(&tmp, serde_json::to_string(&world::self_dump()).unwrap()).unwrap();
                 std::fs::rename(&tmp, &d).unwrap();
             }
+            if args.iter().any(|a| a == "--banner") {
+                let mut o = std::io::stdout();
+                let _ = writeln!(o, "{}", world::BANNER);
+                let _ = o.flush();
+            }
             let idle: u64 = opt(&args, "--idle").and_then(|s| s.parse().ok()).unwrap_or(2);
             let built = world::build_world(&spec);
             let cfg = varlink::ListenConfig { idle_timeout: idle, ..Default::default() };
@@ -128,7 +134,7 @@ fn main() {
                     }
                 }
             }
-            let cmd = format!("{} serve {} $VARLINK_ADDRESS --idle 2 --dump {}", exe, spec, dump);
+            let cmd = format!("{} serve {} $VARLINK_ADDRESS --idle 2 --dump {} --banner", exe, spec, dump);
             let line = match varlink::Connection::with_activate(&cmd) {
                 Err(e) => format!("(fail x{})", sx::hex(format!("{:?}", e.kind()).as_bytes())),
                 Ok(conn) => {
